@@ -238,7 +238,40 @@ pub fn generate(rng: &mut Rng, fault_free: bool) -> K17 {
         events.push(KEvent { at_us: t, ev });
         t += if rng.chance(0.5) { rng.below(3_000) } else { rng.below((2 * duration_us / nev as u64).max(1)) };
     }
-    let quit_at_us = if rng.chance(0.15) { rng.below(60_000) } else { 50_000 + rng.below(duration_us) };
+    if !fault_free && rng.chance(0.06) {
+        // an operator who keeps moving the mouse, drags, spins the wheel or holds a key: a paced
+        // stream that never leaves the client's 10 ms poll window empty, for up to a few seconds
+        let n = 40 + rng.usize_below(400);
+        let mut tf = rng.below(duration_us);
+        let kind = rng.below(6);
+        let (mut c, mut r) = (rng.below(w.max(1) as u64) as u16, rng.below(h.max(1) as u64) as u16);
+        for _ in 0..n {
+            let ev = match kind {
+                0 | 1 => {
+                    c = (c + rng.below(3) as u16).min(w.saturating_sub(1));
+                    r = if rng.coin() { r.saturating_sub(1) } else { (r + 1).min(h.saturating_sub(1)) };
+                    KEv::Mouse { kind: if kind == 0 { "Moved".into() } else { "DragLeft".into() }, col: c, row: r }
+                }
+                2 => KEv::Mouse { kind: "ScrollDown".into(), col: c, row: r },
+                3 => key("Down"),
+                4 => key("c:+"),
+                _ => key("Tab"),
+            };
+            events.push(KEvent { at_us: tf, ev });
+            tf += 300 + rng.below(9_000);
+        }
+        events.sort_by_key(|e| e.at_us);
+    }
+    // a session left alone: nothing from the operator and nothing new from the server for one to
+    // five minutes of simulated time (every timer the client may own fires in that time)
+    let long_quiet = !fault_free && rng.chance(0.012);
+    let quit_at_us = if long_quiet {
+        duration_us + *rng.pick(&[65_000_000u64, 125_000_000, 185_000_000, 310_000_000]) + rng.below(3_000_000)
+    } else if rng.chance(0.15) {
+        rng.below(60_000)
+    } else {
+        50_000 + rng.below(duration_us)
+    };
     events.retain(|e| e.at_us < quit_at_us);
     let refused_first = if !fault_free && rng.chance(0.2) { 1 + rng.below(8) as u32 } else { 0 };
     let proc_delay_us = if !fault_free && rng.chance(0.2) { (0..6).map(|_| *rng.pick(&[0u64, 0, 30_000, 200_000])).collect() } else { vec![] };
@@ -349,7 +382,8 @@ pub fn compile(sc: &K17) -> KChild {
     events.sort_by_key(|e| e.at_us);
     let q = if sc.quit_ctrl_c { KEv::Key { code: "c:c".into(), ctrl: true, shift: false, alt: false } } else { KEv::Key { code: "c:q".into(), ctrl: false, shift: false, alt: false } };
     events.push(KEvent { at_us: sc.quit_at_us.max(events.last().map(|e| e.at_us).unwrap_or(0)), ev: q });
-    KChild { connects, events, proc_delay_us: sc.proc_delay_us.clone(), coalesce: vec![], step_budget: 40_000 }
+    // three seam calls per idle iteration of 60 ms
+    KChild { connects, events, proc_delay_us: sc.proc_delay_us.clone(), coalesce: vec![], step_budget: 40_000 + sc.quit_at_us / 12_000 }
 }
 
 pub fn is_quit_json(j: &str) -> bool {
@@ -412,12 +446,21 @@ pub fn execute(sc: &K17) -> Outcome {
     let mut frames_after_quit = 0;
     let mut state = Fnv::new();
     let mut tab = 0u8;
+    let mut window_start_us = 0u64;
+    let mut flood_seen = false;
     for (i, l) in p.log.iter().enumerate() {
         match l {
             LogEv::Ev { json, .. } => {
                 in_window += 1;
+                if in_window == 1 {
+                    window_start_us = l.time_us();
+                }
                 if in_window == 3 {
                     out.probe("three_events_in_one_poll_window");
+                }
+                if !flood_seen && l.time_us() - window_start_us > 250_000 {
+                    flood_seen = true;
+                    out.fault("event_flood_keeps_client_in_event_loop_over_250ms");
                 }
                 if quit_seen_at.is_none() && is_quit_json(json) {
                     quit_seen_at = Some(i);
@@ -471,6 +514,9 @@ pub fn execute(sc: &K17) -> Outcome {
             }
             _ => {}
         }
+    }
+    if out.virtual_ns > 60_000_000_000 && sc.sweep == 0 && sc.compass == 0 {
+        out.fault("session_left_alone_for_over_a_minute");
     }
     if sc.cols <= 12 || sc.rows <= 6 {
         out.fault("tiny_terminal");
